@@ -50,8 +50,8 @@ CHECKS = {
          "Trusted: the AEAD primitive; the snapshot hook. Unicast sessions with planted keys (CASE, PASE); group sessions only at the counter level (C04).",
          "TLA+ reference receiver enumerated by TLC vs injection into the real receive path with before/after snapshots", "DESIGN.md section 4 C03"),
  "C10": ("model_checking",
-         "TLC proves exhaustively (2-3 exchange ids, 2 responder handlers, 4-5 peer datagrams with any exchange id / initiator flag / reliable flag, every handler policy reply / drop / hold, session removal) that the receive-slot machine transcribed from transport.rs / exchange.rs (RxSlot.tla) hands a message only to the owner of its exchange, opens an exchange only for an allowed first message, and - under fairness of the sweepers and the owners - always frees the single receive slot and ends with no exchange left (liveness: SlotEventuallyFree, EventuallyClean). TLC-simulated disturbance schedules (3 exchange ids, 7 datagrams, random policies) plus harness-made ones (unsecured strays, datagrams for a missing session) are replayed against a real device Matter with two policy-driven handlers; the peer is a raw injector holding the keys of two planted sessions; after the recovery horizon a fresh request on another session must be answered and no exchange may be left. TLC validates the recorded Inj / AppRx / Tx / Probe / End traces against Layer P (RxSlotProp.tla).",
-         "Trusted: TLC; liveness is decided on the model and observed on the real stack only as the bounded probe (answered within the recovery horizon, zero exchanges left). One device, two sessions, unreliable answers.",
+         "TLC proves exhaustively (2 sessions x 2 exchange ids - the same id may be live on both -, 2 responder handlers, 3-4 peer datagrams with any session / exchange id / initiator flag / reliable flag, a stray datagram, every handler policy reply / drop / hold / answer-reliably-and-drop, the last of which makes the device close the whole session) that the receive-slot machine transcribed from transport.rs / exchange.rs (RxSlot.tla) hands a message only to the owner of its (session, exchange), opens an exchange only for an allowed first message, and - under fairness of the sweepers and the owners - always frees the single receive slot and ends with no exchange left (liveness: SlotEventuallyFree, EventuallyClean). TLC-simulated disturbance schedules (2 sessions x 3 exchange ids, 8 datagrams, random policies) plus harness-made ones (unsecured strays, colliding exchange ids across sessions with a waiting owner, a message parked for accept while its session is closed under it) are replayed against a real device Matter with two policy-driven handlers; the peer is a raw injector holding the keys of three planted sessions; after the recovery horizon a fresh request on the third session must be answered, no exchange may be left, and a session the device gave up must have been closed with a CloseSession on the wire. TLC validates the recorded Inj / AppRx / Tx / Probe / End traces against Layer P (RxSlotProp.tla); handlers report the (session, exchange) they own from the device's own tables.",
+         "Trusted: TLC; liveness is decided on the model and observed on the real stack only as the bounded probe (answered within the recovery horizon, zero exchanges left). One device, three sessions.",
          "TLA+ model checking incl. liveness (TLC) + TLC-generated disturbance schedules replayed on the real stack + TLC trace validation", "DESIGN.md section 4 C10"),
 }
 
